@@ -10,6 +10,7 @@ import M4ri.Transpose
 import M4ri.MulW
 import M4ri.Elim
 import M4ri.Glue
+import M4ri.PleRussian
 import M4ri.M4riElim
 import M4ri.Io
 import M4ri.Djb
@@ -414,6 +415,18 @@ def runOpAlg (op : String) (a : Array Val) : R (Array Val × Option (Array Val))
     match SV.kernelLeftPluq (fun _ => (S.toB, P, Q, r)) A.toB with
     | none => pure (#[.null], none)
     | some K => pure (#[.mat (ofB K)], none)
+  -- ------------------------------------------------ exact mirrors of the factorisation routines; the cache sizes of the
+  -- build under test are passed by the correspondence run (second phase)
+  | "ple_exact" | "pluq_exact" =>
+    -- A P Q L1 L2 L3 : `mzd_ple` / `mzd_pluq` (block recursion over the Four-Russians base case)
+    let A ← argMat a 0; let L1 ← argNat a 3; let L2 ← argNat a 4; let L3 ← argNat a 5
+    let o := if op == "ple_exact" then PR.pleTop L1 L2 L3 A.toB else PR.pluqTop L1 L2 L3 A.toB
+    pure (#[.int o.2.2.2, inPlace A o.1, .perm o.2.1, .perm o.2.2.1], none)
+  | "ple_russian_exact" | "pluq_russian_exact" =>
+    -- A P Q k L2 : `_mzd_ple_russian` / `_mzd_pluq_russian`
+    let A ← argMat a 0; let P ← argPerm a 1; let Q ← argPerm a 2; let k ← argNat a 3; let L2 ← argNat a 4
+    let o := if op == "ple_russian_exact" then PR.pleRussian A.toB P Q k L2 else PR.pluqRussian A.toB P Q k L2
+    pure (#[.int o.2.2.2, inPlace A o.1, .perm o.2.1, .perm o.2.2.1], none)
   | "glue_echelonize" =>
     -- S P Q r A0 full : `mzd_echelonize_pluq`
     let S ← argMat a 0; let P ← argPerm a 1; let Q ← argPerm a 2; let r ← argNat a 3; let A ← argMat a 4
